@@ -33,7 +33,7 @@ LEVEL = "exploration"
 ISOLATE = True
 RUN_WALL_S = 60
 TIERS = {
-    "quick": {"cases": 8_000, "episode": 1, "selftest": 48, "wall_cap_s": 900, "shrink_s": 90},
+    "quick": {"cases": 5_000, "episode": 1, "selftest": 48, "wall_cap_s": 900, "shrink_s": 90},
     "thorough": {"cases": 1_000_000, "episode": 1, "selftest": 512, "wall_cap_s": 4 * 3600, "shrink_s": 180},
 }
 RULE = ("each case is one freshly forked process running a drawn history of 2-12 operations over 1-3 drawn XTCE-family "
